@@ -16,9 +16,12 @@ def grids(c, v, tier):
             pts = [(o, n) for o in range(0, B + 1) for n in sorted(set(list(range(0, 2 * blk + 2)) + [B - 1, B, B + 1, 2 * B - 1, 2 * B, 2 * B + 1, 2 * B + blk]))]
         else:
             pts = []
-            for o in (0, 1, blk, B - blk - 1, B - 1, B):
-                for n in (0, 1, blk + 1, B - o, B - o + 1, B + 1, 2 * B + 1):
-                    if n >= 0 and (o, n) not in pts: pts.append((o, n))
+            if c == 3:      # Mantis vec128: each point costs 20 s - 5 min even at 0 rounds (measured), so the quick grid is small
+                cand = [(B, 1), (B, blk + 1), (B - 1, 2), (1, blk), (blk, B - blk), (B - blk - 1, blk + 2), (0, 0), (B, B + 1)]
+            else:
+                cand = [(o, n) for o in (0, 1, blk, B - blk - 1, B - 1, B) for n in (0, 1, blk + 1, B - o, B - o + 1, B + 1, 2 * B + 1)]
+            for (o, n) in cand:
+                if n >= 0 and (o, n) not in pts: pts.append((o, n))
     return blk, lanes, B, pts
 
 def plan(tier):
@@ -30,7 +33,7 @@ def plan(tier):
         ll = ctr_vec_ll(c, v) if v else []
         base = {'CIPHER': c, 'VEC': v}
         fs = 1300 if v else None
-        lowr = 1
+        lowr = 0 if (c == 3 and v) else 1      # the glue never looks at the round count; Mantis vec128 is costly even so
         for (o, n) in pts:
             for inplace in ((0, 1) if (tier == 'thorough' or (o, n) in pts[:3]) else (0,)):
                 qs.append(Q('step:%s:o%d:n%d%s' % (name, o, n, ':inplace' if inplace else ''), 'c05.c',
@@ -39,6 +42,7 @@ def plan(tier):
                             defs=dict(base, OB_STEP=1, O=o, N=n, NR=lowr, INPLACE=inplace), ll=ll, timeout=900, fsarray=fs, sanitize=True))
         # the same step at full cipher depth on a few points: ties the block function of the back end to the scalar cipher
         deep = [(B, B), (B - 1, 2)] if tier == 'quick' else [(B, B), (B - 1, 2), (B, 1), (0, B + 1), (B, 2 * B + 1)]
+        if c == 3 and v and tier == 'quick': deep = []      # Mantis vec128 at full depth: thorough tier only (block function also decided by C07 batch)
         for (o, n) in deep:
             qs.append(Q('deep:%s:o%d:n%d' % (name, o, n), 'c05.c',
                         'the same step at full depth (%d rounds, arbitrary schedule): the back end\'s block function equals the scalar cipher on every lane' % fullr[c],
@@ -51,6 +55,7 @@ def plan(tier):
         for shift in ((0,) if (v == 0 or tier == 'quick') else (0, 16)):
             qs.append(Q('init:%s%s' % (name, ':shift%d' % shift if shift else ''), 'c05.c', 'after init on the %s back end the invariant holds with C = 0 and nothing buffered (first block E(0), then E(1), ...)' % name,
                         defs=dict(base, OB_INIT=1, NR=1, CALLOC_SHIFT=shift), ll=ll, timeout=600, fsarray=fs, sanitize=True))
+    qs += ctr_rekey_queries(tier)
     return dict(
         queries=qs, level='model_checking', pre=[pre_layout, pre_ll_diff],
         functions=['{skinny128,skinny64,mantis}_ctr_encrypt / _set_counter dispatchers', '*_ctr_def_{init,set_counter,encrypt}', 'skinny128_ctr_vec128_*, skinny128_ctr_vec256_*, skinny64_ctr_vec128_*, mantis_ctr_vec128_* (clang IR)',
